@@ -118,7 +118,66 @@ Proof.
   pose proof (src_pad_model N T F (xfun x) (nfun lens) (nfun pl) (nfun pr) HT d value md HF) as G.
   destruct (pad_variable_rows T d (repeat value F) md (rowsM N T F (xfun x) (nfun lens) (nfun pl) (nfun pr)))
     as [out| | |]; cbn [pad_rel] in G; [|rewrite G; reflexivity ..].
-  destruct G as [-> Hlen]. cbn [out_pad]. unfold rows_tensor. rewrite Hlen, tp_rows. reflexivity.
+  destruct G as (-> & Hlen & _). cbn [out_pad]. unfold rows_tensor. rewrite Hlen, tp_rows. reflexivity.
+Qed.
+
+(* the model's rows are whole: T' cells of F values each *)
+Lemma pad_variable_out_wf T F value md x lens pl pr d out :
+  0 < F -> wf_x T F x -> (forall n, n < List.length x -> nth n lens 0 <= T) ->
+  pad_variable T d (repeat value F) md x lens pl pr = Ok out -> wf_x (pad_width x lens pl pr) F out.
+Proof.
+  intros HF Hx HT. unfold pad_variable, pad_width.
+  destruct ((List.length lens =? List.length x) && (List.length pl =? List.length x) && (List.length pr =? List.length x));
+    [|discriminate].
+  rewrite (zip_prows_tab T F x lens pl pr Hx). intros E.
+  pose proof (src_pad_model (List.length x) T F (xfun x) (nfun lens) (nfun pl) (nfun pr) HT d value md HF) as G.
+  rewrite E in G. destruct G as (_ & _ & Hwf). rewrite tp_rows. exact Hwf.
+Qed.
+
+(* ---- the executable form the harness evaluates (SrcRun.src_pad_variable / src_pad_variable_check) ------------- *)
+Lemma concat_length_const {Y} k (l : list (list Y)) :
+  Forall (fun c => List.length c = k) l -> List.length (concat l) = List.length l * k.
+Proof. induction l as [|a l IH]; intros H; [reflexivity|]. inversion H; subst. cbn. rewrite app_length, IH by assumption. lia. Qed.
+
+Lemma chunks_concat {Y} k (l : list (list Y)) :
+  Forall (fun c => List.length c = k) l -> chunks (List.length l) k (concat l) = l.
+Proof.
+  induction l as [|a l IH]; intros H; [reflexivity|]. inversion H; subst. cbn [List.length chunks concat].
+  rewrite firstn_app_exact, skipn_app_exact by reflexivity. now rewrite IH.
+Qed.
+
+Lemma cells_of_rows W F out : wf_x W F out -> cells_of (rows_tensor W F out) = Some out.
+Proof.
+  intros H. unfold cells_of, rows_tensor. cbn [shp dat]. f_equal. unfold wf_x in H. rewrite Forall_forall in H.
+  rewrite <- (map_length (@concat val) out).
+  rewrite chunks_concat.
+  - rewrite map_map. rewrite <- (map_id out) at 2. apply map_ext_in. intros row Hr. destruct (H row Hr) as [HW HF].
+    rewrite <- HW. now apply chunks_concat.
+  - apply Forall_forall. intros c Hc. apply in_map_iff in Hc as (row & <- & Hr). destruct (H row Hr) as [HW HF].
+    rewrite (concat_length_const F row HF). now rewrite HW.
+Qed.
+
+Theorem src_pad_variable_tie T F value md x lens pl pr d :
+  0 < F -> wf_x T F x -> (forall n, n < List.length x -> nth n lens 0 <= T) -> List.length pr = List.length pl ->
+  src_pad_variable T F value md x lens pl pr = Some (pad_variable T d (repeat value F) md x lens pl pr).
+Proof.
+  intros HF Hx HT Hpq. unfold src_pad_variable.
+  destruct (pad_variable_tie T F value md x lens pl pr d HF Hx HT Hpq) as [st ->].
+  destruct (pad_variable T d (repeat value F) md x lens pl pr) as [out| | |] eqn:E; try reflexivity.
+  rewrite dec_any_enc_p. rewrite (cells_of_rows _ F out (pad_variable_out_wf T F value md x lens pl pr d out HF Hx HT E)).
+  reflexivity.
+Qed.
+
+(* integer payload, as the harness passes it: the check on the interpreted source IS the model-side check, the model
+   taken on the payload values (each integer z as the MiniPy value VInt z) *)
+Theorem src_pad_variable_check_is_check T F v md x lens pl pr code impl :
+  0 < F -> wf_x T F (zcells x) -> (forall n, n < List.length x -> nth n lens 0 <= T) -> List.length pr = List.length pl ->
+  src_pad_variable_check T F v md x lens pl pr code impl
+  = res_eqb vtensor_eqb (pad_variable T [] (repeat (VInt v) F) md (zcells x) lens pl pr) code (option_map zcells impl).
+Proof.
+  intros HF Hx HT Hpq. unfold src_pad_variable_check.
+  rewrite (src_pad_variable_tie T F (VInt v) md (zcells x) lens pl pr [] HF Hx); [reflexivity| |assumption].
+  intros n Hn. apply HT. unfold zcells in Hn. now rewrite map_length in Hn.
 Qed.
 
 (* ---- composed with the model theorem: a statement purely about the interpreted source ------------------------
